@@ -1575,7 +1575,7 @@ func (w *World) derefOnlyWhereErrNil(fn *ssa.Function, d ssa.Instruction, errV s
 			return ""
 		}
 		seen++
-		if w.cur == nil || w.cur.st == nil || w.cur.st.nilFact[stripConv(errV)] != -1 {
+		if w.cur == nil || w.cur.st == nil || w.cur.st.nilFact[w.cur.st.nk(stripConv(errV))] != -1 {
 			bad = true
 		}
 		return "D"
